@@ -60,6 +60,11 @@ CHECKS['C17'] = dict(cat='model_checking', ref='5/C17',
     note='Concurrent part samples schedules (thousands of reads per run), it does not enumerate them.',
     tech='TLA+ functional spec; TLC exhaustive check; TLC-generated behaviours replayed; TLC trace validation incl. linearisability windows')
 
+CHECKS['C20'] = dict(cat='model_checking', ref='5/C20',
+    text='spec/Explore.tla models the explorer with entry OBJECTS (a re-discovered target gets a new entry while queue, workers and retry timers may still hold the old one); TLC checks AtMostOneInFlight, NoProbeAfterRemoval, NoProbeBeforeGet, NoProbeAfterSuccess and EstimateIsSuccessfulProbe over every interleaving of the bounded model (2 targets, 2 workers, <=2 failures, bounded depth) and FailedIsRetried under weak fairness; schedules (shortest histories to every state with a stale/queued/retrying entry, plus simulated behaviours) are executed on the real Explore with blocking HTTP targets (the schedule decides order and result of completions), and TLC (ExploreEval) evaluates the history formulas of ExploreProps.tla on the recorded events: probes in flight per discovery of a target, probes of undiscovered targets, probes after success, probes before lookup, status handed out vs successful probe counts, retry within 4 retry intervals.',
+    note='Real time is used only with margins (30 ms retry interval, requests arriving within 10 ms of an update count as started before it); the harness settles before every update.',
+    tech='TLA+ model with object identity; TLC exhaustive interleavings + liveness; TLC-derived schedules executed on real explorer; TLC evaluation of history formulas')
+
 ALL = ['C%02d' % i for i in range(1, 21)]
 
 
